@@ -1,4 +1,5 @@
 """Runs client scenarios (lib/scen.py) through the implementation and the model and compares."""
+import copy
 import json
 from lib import common as C, scen
 
@@ -23,6 +24,48 @@ def run_scenarios(chk, scens, isolated=False):
     mres = C.run_model(mcases)
     model = [[scen.canon_result(x) for x in m] if isinstance(m, list) else m for m in mres]
     return list(zip(impl, model, mcases))
+
+
+def warm_variant(s):
+    """the same single-cycle scenario run on a datastore that an earlier successful cycle has filled: a cycle against
+    a plain valid repository (versions 1, signed with the keys the shipped root lists) is put in front. Returns None
+    when the scenario does not qualify."""
+    if len(s.cycles) != 1:
+        return None
+    cy = s.cycles[0]
+    root = s.docs.get(cy.get("shipped"))
+    if not isinstance(root, dict) or root.get("type") != "root":
+        return None
+    roles = root.get("roles", {})
+    if not all(k in roles and roles[k][0] for k in ("snapshot", "targets", "timestamp")):
+        return None
+    w = scen.Scen(fixes=s.fixes)
+    w.docs = copy.deepcopy(s.docs)
+    signers = {k: list(roles[k][0][:max(1, roles[k][1])]) for k in ("snapshot", "targets", "timestamp")}
+    _, files = scen.simple_repo(w, cs=bool(root.get("cs")), versions=(1, 1, 1, 1), root=cy["shipped"], signers=signers,
+                                targets=[{"name": "warm.txt", "content": "earlier"}])
+    w.cycle(cy["shipped"], files)
+    w.cycles.append(copy.deepcopy(cy))
+    return w
+
+
+def warm_correspondence(chk, scens, every=4, limit=400):
+    """runs every [every]-th qualifying scenario in its warm-datastore variant through implementation and model and
+    reports any difference: what a cycle does must not depend on stored documents in any way the model does not
+    describe (whatever the check's own oracle looks at)"""
+    picked = []
+    for i, s in enumerate(scens):
+        if i % every == 0 and len(picked) < limit:
+            w = warm_variant(s)
+            if w is not None:
+                picked.append(w)
+    if not picked:
+        return
+    for w, (impl, model, mcase) in zip(picked, run_scenarios(chk, picked)):
+        chk.count("warm-datastore-variant")
+        if isinstance(impl, list) and len(impl) == 2 and impl[0][0][0] == 0:
+            chk.count("warm-datastore-variant-first-cycle-ok")
+        check_correspondence(chk, w, impl, model, "client workflow (same scenario after an earlier successful cycle)")
 
 
 def show_cycle(res):
